@@ -564,7 +564,19 @@ impl<B> Call<RecvResponse, B> {
             }
         }
 
+        // A coding list can be spread over several transfer-encoding lines.
+        let transfer_encoding = response
+            .headers()
+            .get_all("transfer-encoding")
+            .iter()
+            .filter_map(|v| v.to_str().ok())
+            .collect::<Vec<_>>()
+            .join(",");
+
         let header_lookup = |name: &str| {
+            if name == "transfer-encoding" && !transfer_encoding.is_empty() {
+                return Some(transfer_encoding.as_str());
+            }
             if let Some(header) = response.headers().get(name) {
                 return header.to_str().ok();
             }
